@@ -16,6 +16,13 @@
 
 // ---------------------------------------------------------------- watchdog (CPU time; only fires on a run that would never end)
 static void on_vtalrm(int) { _exit(78); }
+// coverage builds (bin/coverage: library compiled with --coverage): workers leave through _exit, which skips the atexit flush
+#ifdef SIM_COV
+extern "C" void __gcov_dump(void);
+static inline void cov_flush() { __gcov_dump(); }
+#else
+static inline void cov_flush() {}
+#endif
 void install_watchdog(int seconds) { signal(SIGVTALRM, on_vtalrm); arm_watchdog(seconds); }
 void arm_watchdog(int seconds) {
     struct itimerval it; memset(&it, 0, sizeof it);
@@ -135,7 +142,7 @@ ChildRes run_in_child(const Plan &p, const std::string &prop, bool verbose) {
         size_t off = 0;
         while (off < out.size()) { ssize_t w = write(pfd[1], out.data() + off, out.size() - off); if (w <= 0) break; off += (size_t)w; }
         close(pfd[1]);
-        _exit(0);
+        cov_flush(); _exit(0);
     }
     close(pfd[1]);
     std::string data; char buf[65536]; ssize_t n;
@@ -293,7 +300,7 @@ static void worker_main(const std::vector<Batch> &batches, const std::string &pr
 out:
     agg.save(aggpath);
     if (ff) fclose(ff);
-    _exit(0);
+    cov_flush(); _exit(0);
 }
 
 static std::string shape_of(const Plan &p);
@@ -588,7 +595,7 @@ int digest_cmd(const std::vector<Batch> &batches, const std::string &prop, uint6
                     fprintf(f, "%zu %llu %016llx %s\n", b, (unsigned long long)i, (unsigned long long)r.trace_hash, r.clause.empty() ? "-" : r.clause.c_str());
                 }
             }
-            fclose(f); _exit(0);
+            fclose(f); cov_flush(); _exit(0);
         }
         pids.push_back(pid);
     }
